@@ -781,7 +781,7 @@ class _TRSTractList:
         # each current TractList/TRSList object.
         dct_2 = {}
         for k, tlist in dct.items():
-            dct_2[k] = tlist.group_nested(attribute=attribute, into=None)
+            dct_2[k] = tlist.group_by_nested(attribute=attribute, into=None)
 
         # Unpack dct_2 into the existing dict (`into`), sort, and return.
         dct = add_to_existing_dict(dct_2, into)
